@@ -312,7 +312,12 @@ fn forest(r: &mut Rng, n: u64, t: u64, start: u64, thorough: bool) -> Forest {
     let nroots = r.range(1, 4);
     let mut maxroot = start;
     for _ in 0..nroots {
-        let time = start + delay(r, n, t);
+        let mut time = start + delay(r, n, t);
+        if r.chance(1, 4) {
+            // just below / at / just above an absolute bucket boundary (the start time is not bucket aligned)
+            let b = (start / t + r.range(1, 3)) * t;
+            time = (b + r.below(3)).saturating_sub(r.below(3)).max(start);
+        }
         maxroot = maxroot.max(time);
         roots.push((time, r.below(nodes as u64 / 2 + 1) as usize));
     }
@@ -356,6 +361,12 @@ pub fn gen_for(which: u32, seed: u64, count: usize, thorough: bool) -> String {
         if coarse {
             t = 2_500_000_000_000_000;
             start = *r.pick(&[4u64, 40, 400]) * t + r.below(200);
+            if r.chance(1, 5) {
+                // a width that is not exactly representable in f64 seconds (100.1 s) under a start time of decades
+                // (a unix timestamp): ~2*10^7 buckets lie between 0 and the start, so this stays rare
+                t = 100_100_000_000;
+                start = *r.pick(&[1_700_000_000u64, 1_700_000_001, 946_684_800]) * 1_000_000_000 + r.below(3);
+            }
         }
         if far {
             t = 2_500_000;
